@@ -4,6 +4,7 @@ import (
 	"fmt"
 	"math"
 	"math/big"
+	"strings"
 
 	"github.com/freeconf/yang/meta"
 	"github.com/freeconf/yang/val"
@@ -121,6 +122,11 @@ func (xp xpathImpl) resolveOperator(oper *xpath.Operator, ident string, s *Selec
 	if m == nil {
 		return false, fmt.Errorf("'%s' not found in xpath", ident)
 	}
+	if lit, isNumber := numberAsRat(oper.Lhs); isNumber && m.(meta.HasType).Type().Format() == val.FmtString {
+		// XPath 1.0 Sec 3.4: a string is compared with a number as the number it reads as,
+		// a string that is no number differs from every number
+		return xp.compareWithNumber(oper.Oper, ident, lit, s)
+	}
 	b, err := NewValue(m.(meta.HasType).Type(), oper.Lhs)
 	if err != nil {
 		if lit, isNumber := numberAsRat(oper.Lhs); isNumber && m.(meta.HasType).Type().Format().IsNumeric() {
@@ -197,7 +203,11 @@ func (xp xpathImpl) compareWithNumber(oper string, ident string, lit *big.Rat, s
 	}
 	leaf, isNumber := numberAsRat(a.Value())
 	if !isNumber {
-		if leaf, isNumber = new(big.Rat).SetString(a.String()); !isNumber {
+		if leaf, isNumber = new(big.Rat).SetString(strings.TrimSpace(a.String())); !isNumber {
+			if a.Format() == val.FmtString {
+				// not a number: NaN, equal to nothing and in no order with anything
+				return oper == "!=", nil
+			}
 			return false, fmt.Errorf("'%s' is not a number in xpath", ident)
 		}
 	}
